@@ -26,7 +26,8 @@ class Fn:
     def __init__(self, path, ret=None, requires=(), ensures=(), loops=None, panics=None, valid='true',
                  closures=None, hints=(), attrs=(), rewrites=(), level='L0', r3_skip=(), inherent=False,
                  shape=None, pre_body='', decreases=None, name_as=None, generics=None, no_unwind=False,
-                 sig_sub=(), mut_params=()):
+                 sig_sub=(), mut_params=(), float_casts=()):
+        self.float_casts = tuple(float_casts)
         self.path = path
         self.ret = ret
         self.requires = list(requires)
@@ -164,6 +165,21 @@ class Gen:
                 sig = re.sub(r'Self::' + k + r'\b', v, sig)
                 body = re.sub(r'Self::' + k + r'\b', v, body)
                 self.log.add('R11', fn.path, 'Self::' + k, v)
+        if 'Self::Output' in sig and 'Output' not in assoc and imp is not None and 'IndexMut' in header:
+            # IndexMut inherits `Output` from the sibling Index impl
+            try:
+                sib_path = fn.path.rsplit('::', 1)[0].replace('IndexMut', 'Index') + '::index'
+                _, sib = c.find(sib_path)
+                for sub in items(c.src, c.m, sib.body_open + 1, sib.body_close):
+                    if sub.kind == 'type':
+                        mt = re.match(r'type\s+Output\s*=\s*(.*?);?$', ' '.join(c.src[sub.start:sub.end].split()))
+                        if mt:
+                            v = mt.group(1).rstrip(';').strip()
+                            sig = sig.replace('Self::Output', v)
+                            body = body.replace('Self::Output', v)
+                            self.log.add('R11', fn.path, 'Self::Output', v)
+            except KeyError:
+                pass
         for pat, rep in fn.sig_sub:
             nsig = re.sub(pat, rep, sig)
             self.log.add('RX-sig', fn.path, sig, nsig)
@@ -224,7 +240,7 @@ class Gen:
         text = rules.r7_vec(text, p, log)
         text = rules.r3_compound(text, p, log, fn.r3_skip)
         text = rules.r6_sum(text, p, log)
-        text = rules.r5_casts(text, p, log)
+        text = rules.r5_casts(text, p, log, fn.float_casts)
         text = rules.r8r9_paths(text, p, log)
         text = rules.r14_wildcard(text, p, log)
         text = rules.r15_neg(text, p, log)
@@ -379,6 +395,8 @@ class Gen:
         parts.append('use vstd::prelude::*;')
         parts.append('use vstd::std_specs::ops::*;')
         parts.append('use vstd::std_specs::cmp::*;')
+        parts.append('use std::ops::{self, Deref, DerefMut, Index, IndexMut, Neg, Add, Sub, Mul, Div, AddAssign, SubAssign, MulAssign, DivAssign};')
+        parts.append('use std::convert::{From, Into, TryInto, TryFrom};')
         for pre in unit.preludes:
             parts.append('use crate::%s::*;' % pre.split('_')[0])
         parts.append('verus! {')
@@ -437,6 +455,16 @@ _OPS = {'Add': 'add', 'Sub': 'sub', 'Mul': 'mul', 'Div': 'div', 'Rem': 'rem', 'N
 
 
 def r13_companion(header):
+    ma = re.match(r'impl(<[^>]*>)?\s+(?:ops::|std::ops::|core::ops::)?(Add|Sub|Mul|Div|Rem)Assign(?:<(.*)>)?\s+for\s+(.+)$', header)
+    if ma:
+        gen, tr, rhs, ty = ma.group(1) or '', ma.group(2), ma.group(3), ma.group(4).strip()
+        m = _OPS[tr] + '_assign'
+        rhs = rhs or ty
+        return ('impl%s vstd::std_specs::ops::%sAssignSpecImpl<%s> for %s {\n'
+                '    open spec fn obeys_%s_spec() -> bool { false }\n'
+                '    open spec fn %s_req(&self, rhs: %s) -> bool { true }\n'
+                '    open spec fn %s_spec(&self, rhs: %s) -> &Self { arbitrary() }\n}'
+                % (gen, tr, rhs, ty, m, m, rhs, m, rhs))
     mk = re.match(r'impl(<[^>]*>)?\s+(?:ops::|std::ops::|core::ops::)?(Add|Sub|Mul|Div|Rem|Neg)(?:<(.*)>)?\s+for\s+(.+)$', header)
     if not mk:
         return None
